@@ -17,6 +17,8 @@ RULES = {
     "R01.2": "no falsy drop: integer/string schema scalars (and the attributes they mirror) "
              "never stand in boolean context in a writer or reader; presence is decided by "
              "'is None' / HasField / isinstance",
+    "R01.5": "loaded objects do not share state: constructor arguments/defaults are copied (R04.5) "
+             "and the AuxData / codec path keeps no hidden state (R14.1, R14.2, R14.5)",
     "R01.4": "AuxData persistence: the writer iterates the whole aux_data mapping, the reader "
              "the whole proto map, unfiltered",
 }
@@ -68,6 +70,15 @@ def run(chk: Check) -> None:
     _state_agreement(chk, repo, types)
     _falsy(chk, repo, schema)
     _auxdata(chk, repo)
+    from .c04 import _ctor_copies
+    from .c14 import _to_protobuf, _typestate
+    from .purity import codec_state
+    sub = chk.sub()
+    _ctor_copies(sub)
+    _typestate(sub, repo.cls("AuxData"))
+    _to_protobuf(sub, repo.cls("AuxData"))
+    codec_state(sub, "R14.5", ("auxdata", "serialization"))
+    chk.adopt(sub, None, "R01.5")
 
 
 # ---------------------------------------------------------------------------
